@@ -129,7 +129,7 @@ Proof. exact C05_proofs.wrong_bucket_rejected_lemma. Qed.
    NOT modelled / NOT proved here: the reset strategy (NativeHistogramMinResetDuration > 0, timer), classic buckets
    (C02), exemplars; that every counted value lies in the bucket exposed for it (containment) and WHICH observations
    a Write counts (only how many) -- see the `_partial` names and checks/C05.json. *)
-From Verif Require Import Base.Conc Model.NativeConc Proofs.C05_conc.
+From Verif Require Import Base.Conc Model.NativeConc Proofs.C05_conc Proofs.C05_cont.
 
 (* (a) Every completed Write is self-consistent and no Write panics: no population is negative, bucket keys are
    strictly increasing, and the sample count is the zero bucket plus all positive and negative populations plus a
@@ -204,3 +204,40 @@ Theorem native_conc_quiescent_values_partial : forall (g : NativeHist.config) (p
   ns_cnt Z hot = zlen AV /\
   ns_zb Z hot + zsum (map snd (ns_pos Z hot)) + zsum (map snd (ns_neg Z hot)) + nan_count AV = zlen AV.
 Proof. exact C05_conc.quiescent_values_Z. Qed.
+
+(* ---------------- containment under concurrency (Proofs/C05_cont.v) ---------------- *)
+(* (b'') Quiescence, with containment: once every call has returned, the integer state of the code's machine is the
+   length-image (C05_conc.zsh) of a value-carrying state hl whose hot set satisfies: its counter is a permutation of
+   AV = the values of all Observe calls; its zero bucket and its buckets together hold exactly the non-NaN values of
+   AV; and every value held by bucket k of either sign lies in bucket k at the exposed schema (C05_run.in_key: C04's
+   exact boundaries, sign, not +-0).  So every observation ever made is NaN, or counted in the zero bucket, or counted in
+   an exposed bucket whose range contains it.
+   PARTIAL: for the values counted in the ZERO bucket nothing is claimed about the exposed zero threshold (they were
+   within the threshold in force when they were classified, or came from buckets absorbed by a widening; that
+   getLe's float equals the absorbed bucket's exact bound is C04's widen_exact, false for subnormal bounds: the
+   known finding subnormal-widen); and, as in the checker, a regular bucket may hold values that a LATER wider
+   threshold also covers. *)
+Theorem native_conc_quiescent_contained_partial : forall (g : NativeHist.config) (progs : list (list nop)) (sched : list Z),
+  valid_config g ->
+  let c := run_sched zmachine (init_config zmachine (ninit Z 0 g) progs) sched in
+  all_done zmachine c = true ->
+  exists hl : nsh (list f64), sh c = C05_conc.zsh hl /\
+    let hot := nget (list f64) hl (nh_hot (list f64) hl) in let AV := C05_conc.obs_vals (concat progs) in
+    Permutation.Permutation (ns_cnt (list f64) hot) AV /\
+    Permutation.Permutation (ns_zb (list f64) hot ++ C05_conc_inv.allc (ns_pos (list f64) hot) ++ C05_conc_inv.allc (ns_neg (list f64) hot))
+                            (C05_conc_inv.nn AV) /\
+    forall sg k cell v, In (k, cell) (if sg : bool then ns_neg (list f64) hot else ns_pos (list f64) hot) -> In v cell ->
+      in_key (ns_sch (list f64) hot) k sg v = true.
+Proof. exact C05_cont.quiescent_contained_Z. Qed.
+
+(* (a') Every completed Write, racing or not: the exposition is the length-image (C05_conc.zout) of a value-carrying
+   exposition ol that is self-consistent (good_out: its zero bucket and buckets hold exactly the non-NaN members of a
+   list E of no_count values) and in which every value held by bucket k lies in bucket k at the exposed schema. *)
+Theorem native_conc_scrape_contained_partial : forall (g : NativeHist.config) (progs : list (list nop)) (sched : list Z),
+  valid_config g ->
+  let c := run_sched zmachine (init_config zmachine (ninit Z 0 g) progs) sched in
+  forall k o, In k (Conc.hist c) -> c_ret k = NOut Z o ->
+  exists ol : nout (list f64), o = C05_conc.zout ol /\ C05_conc_inv.good_out ol /\
+    forall sg kk cell v, In (kk, cell) (if sg : bool then no_neg (list f64) ol else no_pos (list f64) ol) -> In v cell ->
+      in_key (no_sch (list f64) ol) kk sg v = true.
+Proof. exact C05_cont.writes_contained_Z. Qed.
